@@ -158,6 +158,11 @@ impl Accept {
 
             // check for timeout and re-register sockets
             self.process_timeout(sockets);
+
+            #[cfg(actix_net_verif)]
+            if crate::verif::stepped() {
+                return;
+            }
         }
     }
 
@@ -342,12 +347,16 @@ impl Accept {
         let next = self.next();
         match next.send(conn) {
             Ok(_) => {
+                #[cfg(actix_net_verif)]
+                crate::verif::point("sent", next.idx());
                 // Increment counter of WorkerHandle.
                 // Set worker to unavailable with it hit max (Return false).
                 if !next.inc_counter() {
                     let idx = next.idx();
                     self.avail.set_available(idx, false);
                 }
+                #[cfg(actix_net_verif)]
+                crate::verif::point("inc", next.idx());
                 self.set_next();
                 Ok(())
             }
@@ -372,6 +381,8 @@ impl Accept {
 
     fn accept_one(&mut self, mut conn: Conn) {
         loop {
+            #[cfg(actix_net_verif)]
+            crate::verif::point("turn", self.next);
             let next = self.next();
             let idx = next.idx();
 
